@@ -99,7 +99,7 @@ Apply(tree, depth, a) ==
          LET t1  == Ensure(tree, a.pt, depth)
              old == AtPath(t1, a.pt).v
          IN Outcome(PutPath(t1, a.pt, Leaf(WriteVal(a.kind, old, a.v))), "ok")
-    [] a.op \in {"get", "getpos", "len", "noop"} -> Outcome(tree, "ok")
+    [] a.op \in {"get", "getpos", "len", "noop", "obs"} -> Outcome(tree, "ok")      \* observers
     [] OTHER ->
          LET f == FiberAt(tree, a.path)
              r == ApplyFiber(f, a, depth - Len(a.path))
@@ -115,6 +115,6 @@ Enabled(tree, depth, a) ==
     [] a.op \in {"append", "extend", "fimul", "fiadd", "updpayloads"} -> a.path \in LeafPaths(tree, depth)
     [] a.op = "setitem"    -> a.path \in LeafPaths(tree, depth) /\ a.pos < Len(FiberAt(tree, a.path).e)
     [] a.op \in {"clear", "itershaperef", "updcoords"} -> a.path \in FiberPaths(tree, depth)
-    [] a.op = "fassign"    -> a.path \in LeafPaths(tree, depth)
+    [] a.op = "fassign"    -> a.path \in FiberPaths(tree, depth) /\ a.lv = depth - Len(a.path)      \* operand has the depth of the target
     [] OTHER -> TRUE
 =============================================================================
